@@ -128,6 +128,12 @@ func (g *genStorage) Config(rng *Rng, tier string) Config {
 		for f := 0; f < g.nFiles; f++ {
 			v := rng.Intn(100)
 			key := [2]int{p, f}
+			if g.profile == "rewards" || g.profile == "attest" {
+				v = v * 55 / 100 // every prover takes part in most files
+				if v >= 25 && v < 47 {
+					v = 32 + (v-25)*15/22
+				}
+			}
 			switch {
 			case v < 32:
 				g.behave[key] = 1
@@ -333,7 +339,11 @@ func (g *genStorage) buyOp(rng *Rng, u int) Op {
 }
 
 func (g *genStorage) postOp(rng *Rng, u, f int, payOnce bool) Op {
-	op := mkOp("post_file", u).withN("file", int64(f)).withN("max", rng.Pick64(1, 1, 2, 3, 3, 4, 5))
+	mx := rng.Pick64(1, 1, 2, 3, 3, 4, 5)
+	if g.profile == "rewards" || g.profile == "attest" {
+		mx = rng.Pick64(2, 3, 4, 5, 6)
+	}
+	op := mkOp("post_file", u).withN("file", int64(f)).withN("max", mx)
 	if payOnce {
 		// expiry in blocks: around a day (14400 blocks) and longer
 		op = op.withN("expires_in", rng.Pick64(14399, 14400, 14401, 20000, 100_000, 5_000_000))
